@@ -21,6 +21,6 @@ func runC10(c *hc.Ctx) error {
 	c.Sum.TrustedBase = pipeTrusted
 	c.Sum.Assumptions = []string{"targets' ids are distinct (keys of a Go map)", "Source and Target obey the channel contract of processing/interface.go (see trusted base)"}
 	m := mode{id: "C10", clauses: map[string]bool{"content": true}}
-	_, err := runPipe(c, m, 420, 6000)
+	_, err := runPipe(c, m, 420, 10000)
 	return err
 }
